@@ -76,6 +76,10 @@ class Scheduler:
         self.local = threading.local()
         self._groups = {}
         self._monitoring = False
+        # a third of the interleaving schedules also pre-empt between *lines* of repo code
+        # (read-modify-write sequences inside one function), at a quarter of the rate
+        self.lines = mode == "interleave" and seed % 3 == 0
+        self.n_line_points = 0
         self.current_group = None
         self._idle_pumps = 0
 
@@ -195,17 +199,20 @@ class Scheduler:
             self.main_sem.release()  # baton back to the scheduler
 
     # ------------------------------------------------------------- monitoring
-    def preemption_point(self, name):
-        """Called (from the sys.monitoring callback) at entry of a repo function."""
+    def preemption_point(self, name, scale=1.0):
+        """Called (from the sys.monitoring callback) at entry of a repo function, and in
+        line mode before each line of a repo function."""
         task = getattr(self.local, "task", None)
         if task is None:
             return
         self.n_points += 1
+        if scale != 1.0:
+            self.n_line_points += 1
         if task.abort:
             raise _Abort()
         if self.n_preempt >= self.max_preempt:
             return
-        if self.rng.random() < self.p_switch:
+        if self.rng.random() < self.p_switch * scale:
             self.n_preempt += 1
             self._note("yield", task.id, name)
             self.main_sem.release()
@@ -235,7 +242,8 @@ class Scheduler:
     def stats(self):
         return {"mode": self.mode, "tasks": self.n_tasks,
                 "decisions": self.n_decisions, "preemptions": self.n_preempt,
-                "points": self.n_points, "ooo_picks": self.n_ooo,
+                "points": self.n_points, "line_points": self.n_line_points,
+                "ooo_picks": self.n_ooo,
                 "parallel_calls": self.n_parallel_calls,
                 "trace": self.digest()}
 
@@ -332,7 +340,22 @@ def _on_py_start(code, offset):
         return sys.monitoring.DISABLE
     s = CURRENT
     if s is not None and s.mode == "interleave":
+        if s.lines and code not in _LINED:
+            # (takes effect at once, also for the frame that is starting: checked by selftest)
+            _LINED.add(code)
+            sys.monitoring.set_local_events(_TOOL, code, sys.monitoring.events.LINE)
         s.preemption_point(code.co_name)
+    return None
+
+
+_LINED = set()
+
+
+def _on_line(code, line):
+    s = CURRENT
+    if s is None or not s.lines:
+        return sys.monitoring.DISABLE  # (until the next scenario's restart_events())
+    s.preemption_point(code.co_name, 0.25)
     return None
 
 
@@ -344,6 +367,7 @@ def install_monitoring(repo_root):
     mon = sys.monitoring
     mon.use_tool_id(_TOOL, "simkit")
     mon.register_callback(_TOOL, mon.events.PY_START, _on_py_start)
+    mon.register_callback(_TOOL, mon.events.LINE, _on_line)
     _installed = True
 
 
